@@ -408,7 +408,7 @@ def st_long(ctx, shapes, label="long", every=False):
     buffers), plain and with an escape at the start / middle / end; the thorough tier walks every length up to 300"""
     out = []
     lens = list(range(0, 301)) if every else [l + d for l in LEN_BOUNDS for d in (0,)]
-    variants = ["plain", "upper", "nonascii", "slash0", "slashM", "slashE", "pct41", "bad", "dots", "stray1", "stray2", "stray3"]
+    variants = ["plain", "upper", "nonascii", "slash0", "slashM", "slashE", "pct41", "bad", "dots"]
     r = ctx.rng(label)
     for slot in LONG_SLOTS:
         for L in lens:
@@ -418,6 +418,15 @@ def st_long(ctx, shapes, label="long", every=False):
                 ty = r.pick(["t", "maven", "nuget", "pypi", "npm", "golang"])
                 s = long_string(slot, L, v, ty)
                 sh = r.pick(shapes)
+                out.append(case("parse %s %s" % (sh, hx(s)), "long", s=s, shape=sh))
+    # a second pass with its own generator (the draws above stay as the full replays validated them)
+    r2 = ctx.rng(label + "-stray")
+    for slot in LONG_SLOTS:
+        for L in lens:
+            for v in ("stray1", "stray2", "stray3"):
+                ty = r2.pick(["t", "maven", "nuget", "pypi", "npm", "golang"])
+                s = long_string(slot, L, v, ty)
+                sh = r2.pick(shapes)
                 out.append(case("parse %s %s" % (sh, hx(s)), "long", s=s, shape=sh))
     return out
 
@@ -622,10 +631,6 @@ def rand_quals_step(r, sep=":"):
     if c == 21:
         return "clear" if r.chance(1, 4) else "len"
     if c == 22:
-        if r.chance(1, 3):
-            ops = "".join(r.pick(["n", "b", "n", "b", "l", "t0", "t1", "t2", "t3", "t7", "u0", "u1", "u2", "u3", "u7", "t18446744073709551615", "u18446744073709551615"])
-                          for _ in range(1 + r.below(6)))
-            return J(["it", r.pick(["i", "m"]), ops])
         return r.pick(["iter", "riter", "len", "ends", "tgck", "eqf", "eqf", "snap", "snap"])
     if c == 23:
         return J([r.pick(["imut", "rimut"]), v()])
@@ -753,6 +758,24 @@ def st_bsearch(ctx, n, label="bsearch"):
         else:
             probe = r.pick(words + ["k%03d" % r.below(3 * L + 1), "zzzz", ""])
         out.append(req(probe, keys))
+    return out
+
+
+def st_iter_random(ctx, n, label="quals-it"):
+    """random collections (inserts and removals in any letter case), then random call sequences on iterators
+    (a stream of its own: the labelled `quals` stream stays as the full replays validated it)"""
+    r = ctx.rng(label)
+    out = []
+    calls = ["n", "b", "n", "b", "l", "t0", "t1", "t2", "t3", "t7", "u0", "u1", "u2", "u3", "u7", "t18446744073709551615", "u18446744073709551615"]
+    for _ in range(n):
+        steps = []
+        for _ in range(r.below(9)):
+            k = r.pick(["a", "B", "a_b", "aab", "k1", "K2", "z", "checksum", "Z9", "m-n", "m.n"])
+            steps.append("ins:%s:%s" % (hx(k), hx(r.pick(["1", "", "x y", "é"]))) if r.chance(4, 5) else "rm:%s" % hx(k))
+            if r.chance(1, 3):
+                steps.append("it:%s:%s" % (r.pick(["i", "m"]), "".join(r.pick(calls) for _ in range(1 + r.below(6)))))
+        steps.append("it:%s:%s" % (r.pick(["i", "m"]), "".join(r.pick(calls) for _ in range(1 + r.below(8)))))
+        out.append(case("quals " + ";".join(steps), label))
     return out
 
 
